@@ -38,14 +38,41 @@ WRITERS = {
 
 
 def table_of(expr):
-    """expr is `self.<table>` or `self.<table>[k]` -> (table, key_src or None)."""
+    """expr is `self.<table>` or `self.<table>[k]` (or, as an iterable, `self.<table>.get(k, ())`) -> (table, key_src or None)."""
     if isinstance(expr, ast.Attribute) and isinstance(expr.value, ast.Name) and expr.value.id == 'self' and expr.attr in TABLES:
         return expr.attr, None
     if isinstance(expr, ast.Subscript):
         t = table_of(expr.value)
         if t and t[1] is None:
             return t[0], src(expr.slice)
+    if isinstance(expr, ast.Call) and isinstance(expr.func, ast.Attribute) and expr.func.attr == 'get' and len(expr.args) == 2 and not expr.keywords \
+            and isinstance(expr.args[1], (ast.Tuple, ast.List)) and not expr.args[1].elts:
+        t = table_of(expr.func.value)
+        if t and t[1] is None:
+            return t[0], src(expr.args[0])          # the rule list of key k, or nothing when there is none
     return None
+
+
+def dealias(fn_node):
+    """locals bound exactly once to a rule list `self.<table>[k]` are replaced by that expression (the rules speak about tables)"""
+    import copy
+    binds = {}
+    for n in ast.walk(fn_node):
+        if isinstance(n, ast.Name) and isinstance(n.ctx, (ast.Store, ast.Del)):
+            binds[n.id] = binds.get(n.id, 0) + 1
+    alias = {}
+    for n in ast.walk(fn_node):
+        if isinstance(n, ast.Assign) and len(n.targets) == 1 and isinstance(n.targets[0], ast.Name) and binds.get(n.targets[0].id) == 1:
+            t = table_of(n.value)
+            if t and t[0] in TABLES and t[1] is not None and isinstance(n.value, ast.Subscript):
+                alias[n.targets[0].id] = n.value
+
+    class R(ast.NodeTransformer):
+        def visit_Name(self, n):
+            if isinstance(n.ctx, ast.Load) and n.id in alias:
+                return ast.copy_location(copy.deepcopy(alias[n.id]), n)
+            return n
+    return R().visit(fn_node) if alias else fn_node
 
 
 def may_return_none(fi):
@@ -63,12 +90,28 @@ class Checker:
         self.model = model
         self.rep = rep
         self.comms = model.cls(MOD, 'Comms')
+        self._flat = {}
 
     def method(self, name):
+        """the method with Comms' private helpers inlined and rule-list aliases resolved (AST partial evaluation; structure only)"""
         f = self.comms.methods.get(name)
         if f is None:
             raise AnalysisError('anchor vanished: Comms.' + name)
-        return f
+        if name in self._flat:
+            return self._flat[name]
+        import copy
+        from ..engine import peval
+        flat = peval.flatten({n_: f_.node for n_, f_ in self.comms.methods.items()}, f.node, depth=2, impure=True)
+        flat = dealias(flat)
+        ast.fix_missing_locations(flat)
+        g = copy.copy(f)
+        g.node = flat
+        for parent in ast.walk(flat):
+            for ch in ast.iter_child_nodes(parent):
+                f.module.parents[ch] = parent
+        f.module.parents[flat] = f.module.parents.get(f.node)
+        self._flat[name] = g
+        return g
 
     # -------------------------------------------------------------- R19.1
     def r191(self):
@@ -350,11 +393,129 @@ class Checker:
 
             def enter_loop(s, node, state):
                 return (state,)
+        self._poll_guard(fi, lp, name)
         body_wo_sources = lp.body
         exits = Flow(Rcv()).run(body_wo_sources, {(0, frozenset())})
         outs = {e.state[0] for e in exits if e.kind in ('fall', 'return')}
         rep.ob('R19.4', fi, 'receives per endpoint per spin', outs <= {0, 1} and 1 in outs,
                'receive counts per endpoint visit: %s (must be 0 or 1, keyed by the visited endpoint)' % sorted(map(str, outs)), line=lp.lineno)
+
+    # -------------------------------------------------------------- R19.6
+    def _poll_guard(self, fi, lp, name):
+        """An endpoint that has at least one active rule (a non-empty forwarding list or a non-empty sink list) must be polled in
+        every spin: the condition under which `self.getData(name)` is skipped is evaluated, path by path, for every combination of
+        (key present, list non-empty) of the two tables."""
+        import itertools
+        from ..engine.paths import paths_of_block
+        rep = self.rep
+        rep.rule('R19.6', 'spin polls every endpoint that has an active forwarding rule or sink (whatever the state of the other table)')
+
+        def ev(e, A):
+            """abstract value: ('list', nonempty) | ('none',) | ('bool', b) | None (not understood)"""
+            if isinstance(e, ast.Constant):
+                if e.value is None:
+                    return ('none',)
+                if isinstance(e.value, bool):
+                    return ('bool', e.value)
+                return None
+            if isinstance(e, (ast.List, ast.Tuple)):
+                return ('list', bool(e.elts))
+            if isinstance(e, ast.UnaryOp) and isinstance(e.op, ast.Not):
+                v = truth(ev(e.operand, A))
+                return None if v is None else ('bool', not v)
+            if isinstance(e, ast.BoolOp):
+                vs = [truth(ev(x, A)) for x in e.values]
+                if isinstance(e.op, ast.Or):
+                    if any(v is True for v in vs):
+                        return ('bool', True)
+                    return None if any(v is None for v in vs) else ('bool', False)
+                if any(v is False for v in vs):
+                    return ('bool', False)
+                return None if any(v is None for v in vs) else ('bool', True)
+            if isinstance(e, ast.Compare) and len(e.ops) == 1:
+                l, op, r = e.left, e.ops[0], e.comparators[0]
+                if isinstance(op, (ast.In, ast.NotIn)) and src(l) == name:
+                    t = table_of(r)
+                    if t and t[1] is None and t[0] in ('forwarding', 'output_functions'):
+                        return ('bool', A[t[0]][0] == isinstance(op, ast.In))
+                # len(x) > 0 / len(x) != 0 / len(x) == 0
+                if isinstance(l, ast.Call) and src(l.func) == 'len' and len(l.args) == 1 and isinstance(r, ast.Constant) and r.value == 0:
+                    v = truth(ev(l.args[0], A))
+                    if v is None:
+                        return None
+                    if isinstance(op, (ast.Gt, ast.NotEq)):
+                        return ('bool', v)
+                    if isinstance(op, ast.Eq):
+                        return ('bool', not v)
+                if isinstance(op, (ast.Is, ast.IsNot)) and isinstance(r, ast.Constant) and r.value is None:
+                    v = ev(l, A)
+                    if v is None:
+                        return None
+                    return ('bool', (v == ('none',)) == isinstance(op, ast.Is))
+                return None
+            if isinstance(e, ast.Call) and src(e.func) == 'len' and len(e.args) == 1:
+                v = truth(ev(e.args[0], A))
+                return None if v is None else ('bool', v)
+            if isinstance(e, ast.Call) and isinstance(e.func, ast.Attribute) and e.func.attr == 'get' and 1 <= len(e.args) <= 2 and src(e.args[0]) == name:
+                t = table_of(e.func.value)
+                if t and t[1] is None and t[0] in ('forwarding', 'output_functions'):
+                    present, nonempty = A[t[0]]
+                    if present:
+                        return ('list', nonempty)
+                    return ('none',) if len(e.args) == 1 else ev(e.args[1], A)
+                return None
+            if isinstance(e, ast.Subscript):
+                t = table_of(e)
+                if t and t[1] == name and t[0] in ('forwarding', 'output_functions'):
+                    return ('list', A[t[0]][1])
+            return None
+
+        def truth(v):
+            if v is None:
+                return None
+            if v[0] == 'list' or v[0] == 'bool':
+                return v[1]
+            return False
+        try:
+            ends, brks, exits = paths_of_block(lp.body, fi.params)
+        except RuntimeError as ex:
+            raise AnalysisError('R19.6: _single_spin cannot be summarised (%s)' % ex)
+        states = [(p_, n_) for (p_, n_) in ((True, True), (True, False), (False, False))]
+        missed, unknown = [], []
+        n_cases = 0
+        for fa, oa in itertools.product(states, states):
+            A = {'forwarding': fa, 'output_functions': oa}
+            if not (fa[1] or oa[1]):
+                continue                   # no active rule: nothing has to be delivered
+            n_cases += 1
+            for pth in list(ends) + list(brks) + list(exits):
+                feasible, understood = True, True
+                for text, tr in pth.facts.items():
+                    try:
+                        node = ast.parse(pth.fact_src.get(text, text), mode='eval').body
+                    except SyntaxError:
+                        understood = False
+                        continue
+                    v = truth(ev(node, A))
+                    if v is None:
+                        if any(tb in text for tb in ('forwarding', 'output_functions')):
+                            understood = False
+                        continue               # a condition about something else (debug flags, ...): either way
+                    if v != tr:
+                        feasible = False
+                        break
+                if not feasible:
+                    continue
+                polled = bool(pth.calls(lambda t: t == 'self.getData'))
+                if not polled:
+                    (missed if understood else unknown).append((A, sorted(pth.facts.items())))
+        desc = lambda A: ', '.join('%s: %s' % (k_, 'non-empty list' if v_[1] else ('empty list' if v_[0] else 'no entry')) for k_, v_ in sorted(A.items()))
+        rep.ob('R19.6', fi, 'poll guard understood', not unknown,
+               'the condition guarding self.getData(%s) is not understood: %s' % (name, unknown[0][1] if unknown else ''), shape=True, line=lp.lineno)
+        rep.ob('R19.6', fi, 'every endpoint with an active rule is polled', not missed,
+               'an endpoint with an active rule is not polled when the tables hold (%s): its sinks / forwarding destinations stop receiving '
+               '(e.g. after the last forwarding rule was deleted while sinks remain)' % (desc(missed[0][0]) if missed else ''), line=lp.lineno)
+        rep.floor('R19.6', 'table states with an active rule examined', n_cases, 5)
 
     # -------------------------------------------------------------- R19.5
     def r195(self):
